@@ -424,9 +424,8 @@ impl<'a> ReadAdapter<'a> {
 
         // Check if we should reset our internal buffer
         if self.buffer().is_empty() && self.pos > 0 {
-            unsafe {
-                self.buf.set_len(0);
-            }
+            self.buf.clear();
+            self.pos = 0;
         }
 
         Ok(output)
